@@ -6,6 +6,15 @@ import json, os
 HOOK_COMMITS = []  # filled from git below
 
 CHECKS = {
+    "C04": ("exploration", "model-based stateful PBT over delivery/timeout/cancel scripts under a manual hub and virtual time; real-clock sweep sub-check",
+            "One real node + stub peers; request frames are parked, then a generated script delivers genuine / unknown-id / right-id-wrong-peer / unconnected-sender / request-typed / duplicate / late replies, advances virtual time across the timeout, aborts callers and makes peers unreachable, for DHT requests and /rr/ application requests. Reference model: a request completes with the first reply carrying its id from its destination while pending, else timeout/send error, exactly once; pending tables empty afterwards; ≤256 /rr/ requests pending and the 257th refused; cancelled DHT callers swept after 2× the timeout (real clock).",
+            "Single-threaded runtime: thread interleavings inside a critical section are not explored.", "5/C04"),
+    "C05": ("exploration", "structure-aware PBT/fuzzing of inbound byte paths with no-panic, allocation, cap, window and source-attribution oracles",
+            "Random bytes (sizes clustered at 0/1/64Ki±1/128Ki), structure-aware mutations of every valid message kind (bit flips, truncation, splices, maximal varints) and valid messages with extreme fields through handle_dht_message, the real receive dispatcher (frame parser, /rr/ branch, DHT handler), DhtCoreEngine::handle_request, DhtRecord (de)serialise and the envelope parser: no panic, heap growth ≤ 4 MiB + 16×len (oversized DHT messages refused before decoding with < 64 KiB allocated), find-node ≤ 20 / find-value ≤ 8 nodes, values > 512 bytes never stored, records ≤ 512 bytes, frames surfaced only inside the timestamp window, surfaced source = connection id whatever the payload claims.",
+            "Thread-local counting allocator; 5 s dead band on wall-clock window edges.", "5/C05"),
+    "C20": ("exploration", "PBT over seeded schedules (start offsets, per-frame delays, silence/stop instants) under an owned virtual clock; bounded-completion oracle",
+            "2..12 real nodes, 2..12 (40) concurrent lookups/puts/gets/pings/inbound requests at seeded offsets, per-frame delays up to 1.5×timeout, peers turned silent/dead mid-operation, stop() at a seeded instant: every operation resolves within (2·20+2)·T, stop() returns within (peers+2)·T, after stop returned and its operations resolved no frame or send attempt leaves the node for 10·T and an injected request is not answered, no task panics.",
+            "Paused tokio clock on one thread: liveness is bounded completion in virtual time; OS-thread interleavings are not explored.", "5/C20"),
     "C01": ("exploration", "PBT over topologies × fault patterns on an in-memory network of real nodes under virtual time; trace invariants + ground-truth closest set",
             "N real DhtNetworkManager/TransportHandle instances exchange the real framed bytes through a hub (paused tokio clock); generated topology, ids, key, K, silent/dead/slow peers and lying stub peers (unknown, duplicate, requester, self ids, forged distances). From the returned list and the RPC trace: completes within a virtual-time bound, ≤K distinct nodes in ascending true XOR distance, each the local node or a peer whose reply was delivered in time, no learned peer closer than the farthest returned one left uncontacted, full mesh ⇒ exactly the K globally closest, never a request to itself, no peer queried twice, ≤1000 frames.",
             "QUIC (ant-quic) is replaced by the hub below send_message / above the receive dispatcher; liars name ≤12 fabricated ids so the documented budget can satisfy completeness.", "5/C01"),
@@ -34,7 +43,7 @@ CHECKS = {
             "7776-point IPv4 boundary grid exhaustively, seeded samples of the 2^48 space, IPv6 classes, separator/case variants: published word form decodes to the same address, own Display rendering parses back, serde JSON/postcard and ContactEntry round trips, 6-byte prefix round trip; routing-table gate treats the library rendering like the socket form; malformed strings never panic or yield a different address.",
             "An address for which no word form is published makes the four-word clauses vacuous (counted).", "5/C19"),
     "C02": ("exploration", "model-based stateful PBT: routing table vs reference set + sort",
-            "Histories of join/add/failure/evict over ids drawn by bucket (incl. the local id and repeats) on a real DhtCoreEngine; the table must list each peer once and never the local node; find_nodes / FindNode / FindValue answers must equal the first min(n,|M|) entries of the reference set sorted by XOR distance, with the 20 / 8 protocol caps. The manager-reply clause is checked by the memnet sub-check once present.",
+            "Histories of join/add/failure/evict over ids drawn by bucket (incl. the local id and repeats) on a real DhtCoreEngine; the table must list each peer once and never the local node; find_nodes / FindNode / FindValue answers must equal the first min(n,|M|) entries of the reference set sorted by XOR distance, with the 20 / 8 protocol caps. A second sub-check sends FIND_NODE / FIND_VALUE / GET frames to a real manager with 1..14 connected peers on the in-memory network: ≤8 names, one identifier per peer, ascending, equal to the top-8 of everything it knows.",
             "Membership after an add is read back from the table and constrained (nothing lost/foreign, acknowledged ids present) rather than re-modelled.", "5/C02"),
     "C10": ("exploration", "stateful PBT over report histories: distribution invariants + differential (two engines) + metamorphic one-extra-report relations",
             "Generated histories of local-trust statements, all nine statistics updates (amounts to 2^40), anchor changes and node removals; after compute: finite scores in [0,1], sum 1 (or all 0), a second engine fed the same history agrees within 1e-6, get_trust equals the computed score and is 0 for unknown ids; one more success never lowers / one more failure never raises the target's score, corrupted-data and protocol-violation cost at least a failure.",
